@@ -417,6 +417,33 @@ def run(ctx):
 
     drive.for_each_case(ctx, 'yaml_all', max(40, ctx.budget // 3), body_all, gen=gen, seconds=60)
 
+    # from_yaml_all with types that are not hashable (struct / tuple type literals) and with unions that compare equal in two member
+    # orders (same-shaped dataclasses): one converted value per document, by THIS call's type
+    def body_all_types(i, rng, ty, T):
+        A = type(f"YA{counter[0]}_{i}", (env.PaneBase,), {'__annotations__': {'x': int, 'y': int}, 'y': 0, '__module__': __name__})
+        B = type(f"YB{counter[0]}_{i}", (env.PaneBase,), {'__annotations__': {'x': int, 'y': int}, 'y': 0, '__module__': __name__})
+        cases = [({'a': int, 'b': str}, [{'a': 1, 'b': 'x'}, {'a': 2, 'b': 'y'}], lambda r: r == [{'a': 1, 'b': 'x'}, {'a': 2, 'b': 'y'}]),
+                 ((int, str), [[1, 'x']], lambda r: r == [(1, 'x')] and type(r[0]) is tuple),
+                 ({'k': t.List[int]}, [], lambda r: r == []),
+                 (t.Union[A, B], [{'x': 1}, {'x': 2, 'y': 3}], lambda r: [type(z) for z in r] == [A, A] and r[1].y == 3),
+                 (t.Union[B, A], [{'x': 1}], lambda r: [type(z) for z in r] == [B]),
+                 (t.Union[int, float], [1, 2.5], lambda r: r == [1, 2.5] and type(r[0]) is int),
+                 (t.Union[float, int], [1], lambda r: r == [1.0] and type(r[0]) is float)]
+        rng.shuffle(cases)
+        for TT, docs, good in cases:
+            text = yaml.dump_all(docs, Dumper=yaml.SafeDumper, explicit_start=True)
+            r = observe(env.m_io.from_yaml_all, io.StringIO(text), TT)
+            ctx.count('yaml_all_checked')
+            ctx.count('yaml_all_special_types')
+            ctx.case(('yaml_all-types', short(TT, 40), r.kind), nontrivial=True)
+            ok = r.kind == 'value' and observe(good, r.val).val is True
+            if not ok:
+                ctx.violation('one-value-per-document', 'yaml_all', i, {'type': short(TT, 200), 'documents': short(docs, 200), 'result': r.brief()},
+                              mech='from_yaml_all-by-this-calls-type')
+                return
+
+    drive.for_each_case(ctx, 'yaml_all_types', 30, body_all_types, gen=lambda c, r: Ty('int'))
+
     # ---- per-call custom= converters are honoured by every write/read variant ------------------------------------------------
     def body_custom(i, rng, ty, T):
         SC = env.m_converters.ScalarConverter
